@@ -149,9 +149,15 @@ func c03Run(w *W) {
 	w.SetShape("pipes", npipes)
 	b := newReqBench(w, time.Hour, nctx, npipes, false)
 	defer b.s.Close()
+	// up to two more contexts are opened in the middle of the history (while
+	// other contexts have requests outstanding or answers waiting): a context
+	// starts with no request, whatever the others are doing
+	nlate := w.Choose(simrt.SShape, 3)
+	live := nctx
+	forceRecv := -1
 
 	states := []m3State{{outcomes: map[int]string{}}}
-	for i := 0; i < nctx; i++ {
+	for i := 0; i < nctx+nlate; i++ {
 		states[0].ctxs = append(states[0].ctxs, m3Ctx{cur: -1, recv: -1})
 	}
 	var recvCalls []*Call
@@ -180,7 +186,11 @@ func c03Run(w *W) {
 		for oi := 0; oi < k; oi++ {
 			kind := w.Choose(simrt.SProg, 10)
 			a := w.Choose(simrt.SProg, 64)
-			ci := a % nctx
+			ci := a % live
+			if forceRecv >= 0 && oi == 0 {
+				ci, kind = forceRecv, 3
+				forceRecv = -1
+			}
 			c := b.ctxs[ci]
 			switch {
 			case kind <= 2: // send
@@ -225,7 +235,7 @@ func c03Run(w *W) {
 					id, what = mine[w.Choose(simrt.SProg, len(mine)-1)], "stale"
 					w.Fault("msg-stale")
 				case 4: // another context's current id
-					oc := (ci + 1) % nctx
+					oc := (ci + 1) % live
 					if oc == ci || len(ids[oc]) == 0 {
 						continue
 					}
@@ -408,6 +418,20 @@ func c03Run(w *W) {
 		if w.Choose(simrt.SProg, 4) == 0 {
 			w.Sleep(time.Duration(1+w.Choose(simrt.SProg, 50)) * time.Millisecond)
 			w.Settle()
+		}
+		if live < nctx+nlate && w.Choose(simrt.SProg, 3) == 0 {
+			c, err := b.s.OpenContext()
+			if err != nil {
+				w.Failf("HARNESS/ctx", "%v", err)
+				return
+			}
+			b.ctxs = append(b.ctxs, &reqCtx{idx: live, c: c, s: b.s, R: time.Hour})
+			w.Op("ctx%d opened", live)
+			if w.Choose(simrt.SProg, 2) == 0 {
+				forceRecv = live
+			}
+			live++
+			w.Probe("context-opened-mid-history")
 		}
 	}
 }
